@@ -443,6 +443,11 @@ def run_link_property(ctx, pid, gen_cases, oracle, classify, rule, nontrivial, a
 
 def replay_link(ctx, pid, path, oracle):
     rp = json.load(open(path))
+    if rp.get("kind") == "failing-input" and (rp.get("tcp") or rp.get("conc")):
+        # a real-socket / concurrent scenario: its judgement lives with the scenario family, which is re-run as a whole
+        import importlib
+        print("replay: the scenario belongs to a real-socket family of %s; re-running the check's families" % pid)
+        return importlib.import_module("vlib.p_" + pid).run(ctx)
     if rp.get("kind") != "failing-input":
         print("replay file names a broken obligation, not an input:", rp.get("what"))
         return 1
